@@ -8,7 +8,7 @@ EXPLANATION = (
     "Rust's ownership already gives exactly-once for safe code; the rules target the places that opt out. R1 (hand-managed storages clean what the "
     "mask names): an UnprotectedStorage impl whose fields hold T only inside MaybeUninit or not at all (discovered from field types) must, in clean(), "
     "run a destroying primitive (assume_init_drop, drop_in_place, or Self::remove whose result is dropped) inside a loop, for an index that is guarded "
-    "by / iterated from the `has` parameter; every other impl must clear each T-holding container field or delegate to the inner storage's clean on "
+    "by / iterated from the `has` parameter (a plain loop or an iterator pipeline whose `filter` tests `has`), and every path of that clean() reaches the walk - only `!needs_drop::<T>()` for the impl's component type T may skip it; every other impl must clear each T-holding container field or delegate to the inner storage's clean on "
     "every path. R2 (forget <-> materialise): a storage without T-holding field passes insert's value to mem::forget on every path and its remove "
     "materialises exactly one T outside any loop; the MaybeUninit storage's remove has exactly one moving read and no destroying primitive, its "
     "insert writes the value parameter with MaybeUninit::write. R3 (teardown): Drop for MaskedStorage reaches clean() through clear() on every path; "
